@@ -244,7 +244,9 @@ func (w *wal) flush(batch WALBatch) error {
 
 func (w WALBatch) replay(fs *fileStore) error {
 	for _, row := range w {
-		fs._nextLSN = row.LSN
+		if row.LSN > fs._nextLSN {
+			fs._nextLSN = row.LSN
+		}
 		node, err := fs.fetch(row.pageID)
 		if err != nil {
 			return err
